@@ -712,6 +712,48 @@ def r2_columns(ctx, repo):
                    "column %s receives component %s" % (idx_c, text(arg.slice) if isinstance(arg, ast.Subscript) else "?"), "column fill %s not recognised" % text(st).strip()[:80], key="columns")
 
 
+def r1_groups(ctx, repo):
+    """Problem.populations(): every recorded individual is put into the group of its generation tag exactly once, whatever
+    its vector or costs - a membership test (`x not in group` is equality of design vectors) drops a recorded individual
+    that shares its vector with another one of the same generation"""
+    from ..paths import Enumerator as _En
+    pc = repo.cls("Problem", "problem")
+    fn = pc.methods.get("populations")
+    if fn is None:
+        return
+    mod = pc.module
+    C = "Problem.populations"
+    loops = [x for x in fn.body if isinstance(x, ast.For) and (access_path(x.iter) or "").endswith(".individuals") and isinstance(x.target, ast.Name)]
+    if len(loops) != 1:
+        ctx.inconclusive("R1", C, where(mod, fn), "loop over the recorded individuals not found", key="groups")
+        return
+    lp = loops[0]
+    x = lp.target.id
+    fake = ast.FunctionDef(name="body", args=fn.args, body=lp.body, decorator_list=[], returns=None, type_comment=None, lineno=lp.lineno, col_offset=0)
+    bad = None
+    n = 0
+    for p in _En(loop_counts=(0, 1)).function_paths(fake):
+        if p.outcome == "raise":
+            continue
+        n += 1
+        apps = [c for e in p.events if e.kind == "stmt" for c in calls_in(e.node) if isinstance(c.func, ast.Attribute) and c.func.attr in ("append", "add")
+                and c.args and access_path(c.args[0]) == x]
+        apps += [e.node for e in p.events if e.kind == "stmt" and isinstance(e.node, ast.Assign) and isinstance(e.node.value, ast.List)
+                 and any(access_path(el) == x for el in e.node.value.elts)]
+        if len(apps) != 1:
+            member_tests = [text(e.node) for e in p.events if e.kind == "guard" and isinstance(e.node, ast.Compare) and any(isinstance(o, (ast.In, ast.NotIn)) for o in e.node.ops)
+                            and access_path(e.node.left) == x]
+            why = ("; the test `%s` is equality of design vectors, so a recorded individual that shares its vector with another one of its generation is left out of every listing built on "
+                   "the groups" % member_tests[0]) if member_tests else ""
+            bad = bad or (lp, "a recorded individual is put into its generation group %d time(s) on the path [%s]%s" % (len(apps), p.describe(5), why))
+    if bad:
+        ctx.violated("R1", C, where(mod, bad[0]), bad[1], key="groups")
+    elif n == 0:
+        ctx.inconclusive("R1", C, where(mod, fn), "no path", key="groups")
+    else:
+        ctx.holds("R1", C, where(mod, fn), "every recorded individual is appended exactly once to the group of its tag (%d body paths)" % n, key="groups")
+
+
 def run(ctx):
     for rid, doc in (("R1", "population(tag) = recorded individuals with that tag, in order; default = maximum tag"),
                      ("R2", "parallel lists filled in lock-step from the same individual"),
@@ -723,6 +765,7 @@ def run(ctx):
     ctx.axiom("sorted() is ascending and stable; zip pairs positionally; scipy cdist(A,B)[i,j] = d(A[i],B[j])")
     ctx.assume("indicator values themselves (numeric) are not decided; only the reduction structure")
     r1_population(ctx, ctx.repo)
+    r1_groups(ctx, ctx.repo)
     pair_sites(ctx, ctx.repo)
     r2_columns(ctx, ctx.repo)
     r4_find_optimum(ctx, ctx.repo)
